@@ -334,4 +334,29 @@ example : resolveRef exConf exRoot exBuiltins "zz" 10 = .unknown := rfl
 example : resolveRef (fun _ _ => true) exRoot exBuiltins "x" 10 = .notUnique := rfl
 example : resolveRef (fun _ _ => true) exRoot exBuiltins "y" 10 = .notUnique := rfl
 
+/-! ## non-vacuity: falsy names
+
+Names are compared as values (`x.name == obj_name`); nothing in the model (as nothing in
+the code) looks at the truth value of a name.  The correspondence check encodes the name
+values of the loaded model injectively modulo Python equality (`"s:"++text` for strings,
+`"n:"++value` for numbers); the theorems above hold for every string, so in particular for
+the empty one and for the keys of `""`, `0`, `0.0` and `False`. -/
+
+/-- `l0 ""  l0 0 { l1 0 }` -/
+def exRoot0 : Obj :=
+  .mk 0 7 none [.cont [.mk 1 0 (some "") [], .mk 2 0 (some "n:0") [.cont [.mk 3 1 (some "n:0") []]]]]
+
+def exBuiltins0 : List (String × Builtin) := [("", ⟨100, 0⟩), ("n:0", ⟨101, 0⟩), ("s:", ⟨102, 1⟩)]
+
+example : DistinctIds exRoot0 := by unfold DistinctIds; decide
+/-- the object named by the empty text is found, the builtins entry of that name is not used -/
+example : resolveRef exConf exRoot0 exBuiltins0 "" 0 = .obj (.mk 1 0 (some "") []) := rfl
+example : resolveRef exConf exRoot0 exBuiltins0 "" 10 = .obj (.mk 1 0 (some "") []) := rfl
+/-- two objects named 0 → not unique (not "unknown", not the builtins entry) -/
+example : resolveRef exConf exRoot0 exBuiltins0 "n:0" 10 = .notUnique := rfl
+example : ∃ o, resolveRef exConf exRoot0 exBuiltins0 "n:0" 1 = .obj o ∧ o.id = 3 := ⟨_, rfl, rfl⟩
+/-- no object named so: the builtins entry with the falsy key is used when it conforms -/
+example : resolveRef exConf exRoot0 exBuiltins0 "s:" 1 = .builtin ⟨102, 1⟩ := rfl
+example : resolveRef exConf exRoot0 exBuiltins0 "s:" 0 = .unknown := rfl
+
 end Link
